@@ -139,6 +139,10 @@ def validKernelShape (kh kw : Int) (model : Model) : Bool :=
   decide (kh % 2 = 1) && decide (kw % 2 = 1) && decide (1 ≤ kh) && decide (1 ≤ kw) &&
     (model != .gainOffset || decide (2 ≤ kh * kw))
 
+/-- `utils.validate_kernel_shape` warns (but accepts) a gain-offset kernel of fewer than 25 elements -/
+def kernelWarns (kh kw : Int) (model : Model) : Bool :=
+  model == .gainOffset && decide (2 ≤ kh * kw) && decide (kh * kw < 25)
+
 /-- `utils.overlap_for_kernel`: `ceil(k / 2)` per axis -/
 def overlapForKernel (k : Nat) : Nat := (k + 1) / 2
 
